@@ -333,23 +333,36 @@ def execute(sc):
     S = sorted({p_ for p_ in (0, 1, 2, 31, 32, 33, 63, 64, 65, 127, 128, 129, 191, 192, 255, 256, N - 1) if p_ < N}
                | {e_ % N for e_ in m['extra']})
     qs = {}
-    for s_ in S:
-      cohort = [(b'c%d' % i, tree, 1.0 if i == s_ else 0.0) for i in range(N)]
-      got, _new = run_round_nokey(agg, state, cohort)
-      evals += 1
-      if got is None or not np.all(np.isfinite(got['l0'])):
-        violation('Q1', f'Q1:non-finite-output:{name}', f'{name} L={L}: {N} clients, weight on position {s_}')
-        continue
-      qs[s_] = got['l0']
+    # round 0: the structured position set S; rounds 1 and 2 (state threaded): the first positions again, so that
+    # randomness re-used across ROUNDS at another position (e.g. client i+1 of round t == client i of round t+1)
+    # shows up as well.  Every (round, position) must give a different quantisation of the same tree.
+    for t_ in range(3):
+      nxt = None
+      for s_ in (S if t_ == 0 else [p_ for p_ in (0, 1, 2, 3, 4, 63, 64, 65) if p_ < N]):
+        cohort = [(b'c%d' % i, tree, 1.0 if i == s_ else 0.0) for i in range(N)]
+        got, nxt = run_round_nokey(agg, state, cohort)
+        evals += 1
+        if got is None or not np.all(np.isfinite(got['l0'])):
+          violation('Q1', f'Q1:non-finite-output:{name}', f'{name} L={L}: {N} clients, weight on position {s_}')
+          continue
+        qs[(t_, s_)] = got['l0']
+      if nxt is not None:
+        state = nxt
     pos = sorted(qs)
     for i_, a_ in enumerate(pos):
       for b_ in pos[i_ + 1:]:
         if np.array_equal(qs[a_], qs[b_]):
-          violation('Q5', f'Q5:two-clients-quantized-with-the-same-randomness:{name}',
-                    f'{name} L={L}: in a cohort of {N} identical clients the clients at positions {a_} and {b_} are '
-                    f'quantised identically (256 coordinates)')
+          if a_[0] == b_[0]:
+            violation('Q5', f'Q5:two-clients-quantized-with-the-same-randomness:{name}',
+                      f'{name} L={L}: in a cohort of {N} identical clients the clients at positions {a_[1]} and {b_[1]} '
+                      f'are quantised identically (256 coordinates)')
+          else:
+            violation('Q6', f'Q6:randomness-reused-across-rounds:{name}',
+                      f'{name} L={L}: client at position {a_[1]} of round {a_[0]} and client at position {b_[1]} of round '
+                      f'{b_[0]} (consecutive states) are quantised identically (256 coordinates)')
           break
-    trace.ev('many', n=N, positions=pos, h=[hashlib.sha256(qs[p_].tobytes()).hexdigest()[:8] for p_ in pos])
+    trace.ev('many', n=N, positions=[list(p_) for p_ in pos],
+             h=[hashlib.sha256(qs[p_].tobytes()).hexdigest()[:8] for p_ in pos])
     return _out(trace, viols, probes, faults, ['many', N], {'random'}, evals, sc, True)
 
   # ------------------------------------------------------------ mixed history
